@@ -63,6 +63,11 @@ def names_of(k, ec):
     return [f"lon{k}", f"lat{k}"]
 
 
+def sky_types(k):
+    """custom physical types for every second SkyCoord table (the others keep the frame's defaults)"""
+    return {"physical_types": (f"custom:pos.slit.lon{k}", f"custom:pos.slit.lat{k}")} if k % 2 == 1 else {}
+
+
 def add_ecs(cube, ecs, shape, voff=0.0, ishift=None):
     """`ishift` (per array axis, whole pixels) moves the 1-D Quantity / Time tables: entry i is the
     unshifted table's formula at i - ishift[axis]."""
@@ -91,25 +96,29 @@ def add_ecs(cube, ecs, shape, voff=0.0, ishift=None):
             # (Time tables in the usual scales, by table position: instants matter, not clock readings)
             cube.extra_coords.add(nm[0], axes[0], Time(T0.isot, scale=["utc", "tai", "tt"][k % 3]) + v * u.min)
         elif kind == "sky1":
-            cube.extra_coords.add(tuple(nm), axes[0], SkyCoord(v * u.deg / 10, (v / 2 - 5) * u.deg / 10, frame="icrs"), mesh=False)
+            cube.extra_coords.add(tuple(nm), axes[0], SkyCoord(v * u.deg / 10, (v / 2 - 5) * u.deg / 10, frame="icrs"), mesh=False,
+                                  **sky_types(k))
         elif kind == "quantity2":
             n1 = shape[axes[1]]
             t0 = (np.arange(n, dtype=float) * 2 + 100 * k) * u.m
             t1 = (np.arange(n1, dtype=float) ** 2 + 7 * k) * u.cm      # equivalent units may differ between the tables
             cube.extra_coords.add(tuple(nm), tuple(axes),
-                                  QuantityTableCoordinate(t0, t1, names=tuple(nm), physical_types=(f"custom:qa{k}", f"custom:qb{k}")))
+                                  QuantityTableCoordinate(t0, t1, names=tuple(nm),
+                                                          **({"physical_types": (f"custom:qa{k}", f"custom:qb{k}")} if k % 2 == 0 else {})))
         elif kind == "quantity3":
             tabs = [(np.arange(shape[a], dtype=float) * (j + 2) + 50 * k + 7 * j) * [u.m, u.cm, u.mm][j] for j, a in enumerate(axes)]
             cube.extra_coords.add(tuple(nm), tuple(axes),
-                                  QuantityTableCoordinate(*tabs, names=tuple(nm), physical_types=tuple(f"custom:{x}" for x in nm)))
+                                  QuantityTableCoordinate(*tabs, names=tuple(nm),
+                                                          **({"physical_types": tuple(f"custom:{x}" for x in nm)} if k % 2 == 0 else {})))
         elif kind == "sky2d":
             n1 = shape[axes[1]]
             ii, jj = np.meshgrid(np.arange(n, dtype=float), np.arange(n1, dtype=float), indexing="ij")
-            cube.extra_coords.add(tuple(nm), tuple(axes), SkyCoord((ii * 7 + jj + k) * u.deg / 10, (ii - 2 * jj) * u.deg / 10, frame="icrs"), mesh=False)
+            cube.extra_coords.add(tuple(nm), tuple(axes), SkyCoord((ii * 7 + jj + k) * u.deg / 10, (ii - 2 * jj) * u.deg / 10, frame="icrs"), mesh=False,
+                                  **sky_types(k))
         elif kind == "sky2mesh":
             lon = (np.arange(n, dtype=float) * 3 + k) * u.deg / 10
             lat = (np.arange(n, dtype=float) ** 2 - 4) * u.deg / 10
-            cube.extra_coords.add(tuple(nm), tuple(axes), SkyCoord(lon, lat, frame="icrs"), mesh=True)
+            cube.extra_coords.add(tuple(nm), tuple(axes), SkyCoord(lon, lat, frame="icrs"), mesh=True, **sky_types(k))
     return cube
 
 
